@@ -177,7 +177,8 @@ where
             55..=60 if xs.prepared.is_none() && xs.depth_total < 6 => claim_x(st, xs, scope),
             61..=66 if xs.prepared.is_none() => { st.ops_left = st.ops_left.saturating_sub(1); let kk = st.rng.below(5); lower_op::<A, S>(st, xs, kk) }
             67..=72 if xs.prepared.is_none() && xs.depth_total < 6 => { st.ops_left = st.ops_left.saturating_sub(1); aligned_x(st, xs, scope) }
-            73..=99 => { st.ops_left = st.ops_left.saturating_sub(1); prepared_x(st, xs, scope) }
+            73..=88 => { st.ops_left = st.ops_left.saturating_sub(1); prepared_x(st, xs, scope) }
+            89..=99 if xs.prepared.is_none() => { st.ops_left = st.ops_left.saturating_sub(3); mutvec_x(st, xs, scope) }
             _ => { st.ops_left = st.ops_left.saturating_sub(1); }
         }
     }
@@ -433,6 +434,161 @@ where
             monitors(st);
             fill_new(st, scope, np, bytes, ea, None);
         }
+    }
+}
+
+fn min_non_zero_cap(size: usize) -> usize { if size == 1 { 8 } else if size <= 1024 { 4 } else { 1 } }
+
+/// C15 at collection level: a real MutBumpVec / MutBumpVecRev is filled (growth = prepare in a
+/// chunk that fits + copy), then finalised or dropped.  Each growth is logged as the `PR` it must
+/// be according to the amortised growth policy, the finalisation as `WR` + `CM`.
+fn mutvec_x<A, S>(st: &mut St, xs: &mut Xs, scope: &mut BumpScope<'_, A, S>)
+where
+    A: bump_scope::BaseAllocator<S::GuaranteedAllocated>,
+    S: BumpAllocatorSettings,
+{
+    use bump_scope::{MutBumpVec, MutBumpVecRev};
+    flush(st);
+    let rev = st.rng.coin(1, 2);
+    let nops = st.rng.range(1, 12);
+    let h = st.h;
+    let positions = |stats: bump_scope::stats::Stats<'_, A, S>| -> (Vec<(usize, usize)>, Option<usize>) {
+        (stats.small_to_big().map(|c| (c.chunk_start().as_ptr() as usize, c.bump_position().as_ptr() as usize)).collect(),
+         stats.current_chunk().map(|c| c.chunk_start().as_ptr() as usize))
+    };
+    macro_rules! body {
+        ($t:ty, $vecty:ident, $es:expr, $ea:expr) => {{
+            let es: usize = $es; let ea: usize = $ea;
+            let stp: *mut St = st;
+            let mut v: $vecty<$t, &mut BumpScope<'_, A, S>> = $vecty::new_in(&mut *scope);
+            let mut shadow: Vec<$t> = vec![];
+            let mut counter: u64 = st.rng.next();
+            let mut ok = true;
+            for _ in 0..nops {
+                let st = unsafe { &mut *stp };
+                if st.dead { break; }
+                let (before_pos, before_cur) = positions(v.allocator_stats());
+                let kind = st.rng.below(5);
+                let additional: usize = match kind {
+                    0 => 1,
+                    1 => st.rng.range(1, 40) as usize,
+                    2 => if shadow.is_empty() { 1 } else { st.rng.range(1, shadow.len() as u64) as usize },
+                    3 => match st.rng.below(4) { 0 => st.rng.below(4000) as usize, 1 => st.rng.below(60000) as usize, _ => st.rng.below(200) as usize },
+                    _ => st.rng.below(300) as usize,
+                };
+                if kind == 2 && shadow.is_empty() { continue; }
+                let (len, cap) = (v.len(), v.capacity());
+                let grows = len + additional > cap;
+                let exact = kind == 4;
+                let req = if exact { len + additional } else { (cap * 2).max(len + additional).max(min_non_zero_cap(es)) };
+                let fail = grows && st.rng.below(100) < st.fail_rate.max(8);
+                if grows {
+                    if fail { let _ = writeln!(st.out, "FAIL"); with_pool(|p| p.fail_next = true); }
+                    let _ = writeln!(st.out, "O PR {h} {es} {ea} {req} {} 0", rev as u8);
+                }
+                let r: Result<(), AllocError> = match kind {
+                    0 => { counter = counter.wrapping_mul(6364136223846793005).wrapping_add(1); let x = counter as $t; let r = v.try_push(x); if r.is_ok() { if rev { shadow.insert(0, x) } else { shadow.push(x) } } r }
+                    1 => { let xs_: Vec<$t> = (0..additional).map(|i| (counter.wrapping_add(i as u64 * 77)) as $t).collect(); counter = counter.wrapping_add(1000);
+                           let r = v.try_extend_from_slice_copy(&xs_); if r.is_ok() { if rev { let mut n = xs_.clone(); n.extend(shadow.iter().copied()); shadow = n; } else { shadow.extend(xs_) } } r }
+                    2 => { let a = st.rng.below((shadow.len() - additional + 1) as u64) as usize; let r = v.try_extend_from_within_copy(a..a + additional);
+                           if r.is_ok() { let part: Vec<$t> = shadow[a..a + additional].to_vec(); if rev { let mut n = part; n.extend(shadow.iter().copied()); shadow = n; } else { shadow.extend(part) } } r }
+                    3 => v.try_reserve(additional),
+                    _ => v.try_reserve_exact(additional),
+                };
+                st.epoch += if grows { 1 } else { 0 };
+                if grows {
+                    events_lines(st);
+                    match r {
+                        Ok(()) => {
+                            let p = if rev { v.as_ptr() as usize + v.len() * es } else { v.as_ptr() as usize };
+                            let _ = writeln!(st.out, "R R {p} {}", v.capacity());
+                        }
+                        Err(_) => { let _ = writeln!(st.out, "R E"); }
+                    }
+                } else if r.is_err() {
+                    st.x("panic", "a MutBumpVec operation that needs no growth failed");
+                }
+                // contents are those of a std Vec (front/back mirrored for the rev vector)
+                if v.as_slice() != &shadow[..] {
+                    st.x("committed-slice-lost-contents", &format!("MutBumpVec{} contents differ from the expected ones after operation kind {kind} (len {} vs {})", if rev { "Rev" } else { "" }, v.len(), shadow.len()));
+                    ok = false;
+                }
+                if v.capacity() < v.len() { st.x("prepared-capacity-smaller-than-requested", "capacity < len"); }
+                // C15: filling never moves a bump position in a chunk up to the old current one
+                let (after_pos, _) = positions(v.allocator_stats());
+                if let Some(cur) = before_cur {
+                    for (b, a) in before_pos.iter().zip(after_pos.iter()) {
+                        if b != a { st.x("prepare-moved-a-bump-position", &format!("chunk {} position {} -> {} while a MutBumpVec was being filled", b.0, b.1, a.1)); }
+                        if b.0 == cur { break; }
+                    }
+                }
+                if grows {
+                    // T line of the growth step
+                    let s2 = v.allocator_stats();
+                    let mut line = String::new();
+                    let cur_start = s2.current_chunk().map(|c| c.chunk_start().as_ptr() as usize);
+                    let mut cur_idx: i64 = -1;
+                    let chunks: Vec<(usize, usize, usize)> = s2.small_to_big().enumerate().map(|(i, c)| { let st_ = c.chunk_start().as_ptr() as usize; if Some(st_) == cur_start { cur_idx = i as i64; } (st_, c.size(), c.bump_position().as_ptr() as usize) }).collect();
+                    let _ = write!(line, "T {} {} {} {} {} {}", s2.count(), s2.size(), s2.capacity(), s2.allocated(), s2.remaining(), cur_idx);
+                    for c in &chunks { let _ = write!(line, " {}:{}:{}", c.0, c.1, c.2); }
+                    let _ = writeln!(st.out, "{line}");
+                }
+                monitors(st);
+            }
+            let st = unsafe { &mut *stp };
+            if !st.dead && ok && v.capacity() > 0 && st.rng.coin(3, 4) {
+                // finalise: the contents become a block; make them the model's pattern first
+                let (len, cap) = (v.len(), v.capacity());
+                let bytes = len * es;
+                st.seed_ctr += 1;
+                let seed = st.seed_ctr;
+                let start = v.as_mut_ptr() as usize;
+                let pat: Vec<u8> = (0..bytes).map(|i| pattern(seed, i)).collect();
+                unsafe { core::ptr::copy_nonoverlapping(pat.as_ptr(), start as *mut u8, bytes) };
+                let _ = writeln!(st.out, "O WR {start} {bytes} {seed}");
+                st.epoch += 1;
+                let _ = writeln!(st.out, "R U");
+                let ptr = if rev { start + bytes } else { start };
+                let before_alloc = v.allocator_stats().allocated();
+                let _ = writeln!(st.out, "O CM {h} {es} {ea} {ptr} {len} {cap} {} 0", rev as u8);
+                let res = catch_unwind(AssertUnwindSafe(move || { let s = v.into_slice(); s.as_ptr() as usize }));
+                st.epoch += 1;
+                events_lines(st);
+                match res {
+                    Ok(np) => {
+                        let _ = writeln!(st.out, "R B {np} {bytes}");
+                        mem_line(st, np, bytes);
+                        let cur = unsafe { core::slice::from_raw_parts(np as *const u8, bytes) };
+                        if cur != &pat[..] { st.x("committed-slice-lost-contents", &format!("into_slice ptr={np} bytes={bytes}")); }
+                        let adv = scope.stats().allocated() as i64 - before_alloc as i64;
+                        let m = <S as BumpAllocatorSettings>::MIN_ALIGN;
+                        if adv < bytes as i64 || adv >= (bytes + ea + m) as i64 {
+                            st.x("commit-advanced-position-by-more-than-contents-plus-padding", &format!("into_slice bytes={bytes} advanced={adv}"));
+                        }
+                        stats_line(st, scope);
+                        monitors(st);
+                        fill_new(st, scope, np, bytes, ea, None);
+                    }
+                    Err(_) => {
+                        let msg = LAST_PANIC.with(|m| m.borrow().clone());
+                        st.x("panic", &format!("MutBumpVec::into_slice panicked: {}", msg.replace('\n', " ")));
+                        st.dead = true;
+                    }
+                }
+            } else {
+                drop(v);
+                // dropping without finalising leaves every position where it was
+                monitors(st);
+            }
+        }};
+    }
+    match (st.rng.below(3), rev) {
+        (0, false) => body!(u8, MutBumpVec, 1, 1),
+        (1, false) => body!(u32, MutBumpVec, 4, 4),
+        (_, false) => body!(u64, MutBumpVec, 8, 8),
+        (0, true) => body!(u8, MutBumpVecRev, 1, 1),
+        (1, true) => body!(u32, MutBumpVecRev, 4, 4),
+        (_, true) => body!(u64, MutBumpVecRev, 8, 8),
     }
 }
 
